@@ -47,7 +47,8 @@ theorem exBool_compile0 (tol : Ext K) : Compile.linearize (exBool : Model (Ext K
     simp [Analyzer.applyToDomain, Analyzer.applyToVar, Analyzer.fromDomain, exBool, AList.insert, AList.get?,
       Bounds.ofVarType]
   refine (compile_ok_iff _ _ _ _).mpr
-    ⟨{ Analyzer.fromDomain (exBool : Model (Ext K)).domain tol with reachedIterationLimit := true }, ?_, ?_⟩
+    ⟨scratchOK_of_fragCheck _ _ (by simp [fragCheck, exBool, frag, fragList]),
+     { Analyzer.fromDomain (exBool : Model (Ext K)).domain tol with reachedIterationLimit := true }, ?_, ?_⟩
   · simp only [pipelineAnalyzer, exBool_normalized, Option.map_some, exBool_analyzer]
   · rw [hd]; exact exBool_lin _
 
